@@ -3,6 +3,9 @@ import CattrsModel.GenHook.TDLemmas
 import CattrsModel.GenHook.TDLemmas3
 import CattrsModel.GenHook.QuoteLemmas
 import CattrsModel.Props.C10
+import CattrsModel.GenHook.NestedRT2
+import CattrsModel.GenHook.NestedKeys
+import CattrsModel.GenHook.NestedForbid2
 /-!
 # C09 — customised generated hooks: emitted key set, round trip, generation never fails
 
@@ -52,12 +55,12 @@ handlers restore, every other one its default. -/
 theorem C09_roundtrip (un : UnFn) (st : StFn) (ci : Nat) (c : GCls) (fs : List (String × Obj))
     (rt : Attr → Obj → Obj) (forbid : Bool)
     (hcons : ConsistentCls c.frozen c.hc c.attrs = true) (hlen : fs.length = c.attrs.length)
-    (hrt : ∀ p ∈ c.attrs.zip fs, included c.hc p.1 = true → emitted c.hc p.1 p.2.2 = true → (ovOf c.hc p.1).sh = none →
+    (hrt : ∀ p ∈ c.attrs.zip fs, included c.hc p.1 = true → GenHook.emitted c.hc p.1 p.2.2 = true → (ovOf c.hc p.1).sh = none →
       st p.1.ty (un p.1.ty p.2.2) = .ok (rt p.1 p.2.2)) :
     hstClsWith forbid st ci c (hunCls un c.hc c.attrs fs)
       = .ok (.inst ci (restored c.hc (rtWithHooks c.hc rt) c.attrs fs)) := by
   have hsu := (consistentCls_unpack hcons).2.2.2.2.1
-  have hrt' : ∀ p ∈ c.attrs.zip fs, included c.hc p.1 = true → emitted c.hc p.1 p.2.2 = true →
+  have hrt' : ∀ p ∈ c.attrs.zip fs, included c.hc p.1 = true → GenHook.emitted c.hc p.1 p.2.2 = true →
       attrSt st (ovOf c.hc p.1) p.1 (attrUn un (ovOf c.hc p.1) p.1 p.2.2) = .ok (rtWithHooks c.hc rt p.1 p.2.2) := by
     intro p hp hi he
     have hpa : p.1 ∈ c.attrs := (List.of_mem_zip hp).1
@@ -81,15 +84,15 @@ is `==` to the original value. -/
 theorem C09_restored_agrees (hc : HookCfg) (rt : Attr → Obj → Obj) (attrs : List Attr) (fs : List (String × Obj))
     (p : Attr × String × Obj) (hp : p ∈ attrs.zip fs) (hi : included hc p.1 = true) :
     ∃ y, (p.1.name, y) ∈ restored hc rt attrs fs ∧
-      (emitted hc p.1 p.2.2 = true → y = rt p.1 p.2.2) ∧
-      (emitted hc p.1 p.2.2 = false → ∃ d, p.1.dflt.value? = some d ∧ y = d ∧ pyEqD p.2.2 d = true) := by
+      (GenHook.emitted hc p.1 p.2.2 = true → y = rt p.1 p.2.2) ∧
+      (GenHook.emitted hc p.1 p.2.2 = false → ∃ d, p.1.dflt.value? = some d ∧ y = d ∧ pyEqD p.2.2 d = true) := by
   rw [restored_eq_map]
   refine ⟨_, List.mem_map.mpr ⟨p, hp, rfl⟩, ?_, ?_⟩
   · intro he; simp [hi, he]
   · intro he
-    have hne : (emitted hc p.1 p.2.2 = true) = False := by simp [he]
+    have hne : (GenHook.emitted hc p.1 p.2.2 = true) = False := by simp [he]
     simp only [hi, he, Bool.and_false, Bool.false_eq_true, if_false]
-    simp only [emitted, Bool.not_eq_false', Bool.and_eq_true, defaultEq] at he
+    simp only [GenHook.emitted, Bool.not_eq_false', Bool.and_eq_true, defaultEq] at he
     cases hd : p.1.dflt.value? with
     | none => rw [hd] at he; simp at he
     | some d => rw [hd] at he; exact ⟨d, rfl, rfl, he.2⟩
@@ -138,11 +141,12 @@ theorem C09_td_keys_partial (un : UnFn) (unIsId : Option Ty → Bool) (hc : Hook
     (inst : List (Obj × Obj))
     (hcons : ConsistentTD hc attrs = true)
     (hid : ∀ t v, unIsId t = true → un t v = v)
-    (hfree : ∀ a ∈ attrs, tdIncluded hc a = true → ∀ r, (ovOf hc a).rename = some r → dlookup inst (.str r) = none) :
+    (hfree : ∀ a ∈ attrs, tdIncluded hc a = true → ∀ r, (ovOf hc a).rename = some r → dlookup inst (.str r) = none)
+    (hreq : ∀ a ∈ attrs, tdIncluded hc a = true → a.required = true → (dlookup inst (.str a.name)).isSome = true) :
     ∃ out, hunTD un unIsId hc attrs inst = .dict out ∧
       ∀ a ∈ attrs, tdIncluded hc a = true →
         dlookup out (.str (tdKey hc a)) = (dlookup inst (.str a.name)).map (attrUn un (ovOf hc a) a) :=
-  ⟨_, rfl, hunTDSteps_main un unIsId hc inst hid attrs inst (consistentTD_facts hcons).1 (fun _ _ => rfl) hfree⟩
+  ⟨_, rfl, hunTDSteps_main un unIsId hc inst hid attrs inst (consistentTD_facts hcons).1 (fun _ _ => rfl) hfree hreq⟩
 
 /-- **TypedDict key set, complete** — what the unstructure hook (`res = instance.copy()`, then `pop` / assign per
 attribute) leaves under **every** key `k` of the output, string or not.  For a consistent customisation, an
@@ -159,7 +163,8 @@ theorem C09_td_keys (un : UnFn) (unIsId : Option Ty → Bool) (hc : HookCfg) (at
     (hcons : ConsistentTD hc attrs = true)
     (hid : ∀ t v, unIsId t = true → un t v = v)
     (hfree : ∀ a ∈ attrs, tdIncluded hc a = true → ∀ r, (ovOf hc a).rename = some r → dlookup inst (.str r) = none)
-    (hnd : nodupPy (keysOf inst) = true) :
+    (hnd : nodupPy (keysOf inst) = true)
+    (hreq : ∀ a ∈ attrs, tdIncluded hc a = true → a.required = true → (dlookup inst (.str a.name)).isSome = true) :
     ∃ out, hunTD un unIsId hc attrs inst = .dict out ∧
       (∀ a ∈ attrs, tdIncluded hc a = true →
         dlookup out (.str (tdKey hc a)) = (dlookup inst (.str a.name)).map (attrUn un (ovOf hc a) a)) ∧
@@ -168,7 +173,7 @@ theorem C09_td_keys (un : UnFn) (unIsId : Option Ty → Bool) (hc : HookCfg) (at
       (∀ k : Obj, (∀ a ∈ attrs, k ≠ .str a.name ∧ (tdIncluded hc a = true → k ≠ .str (tdKey hc a))) →
         dlookup out k = dlookup inst k) ∧
       nodupPy (keysOf out) = true :=
-  ⟨_, rfl, hunTDSteps_keys un unIsId hc inst hid attrs (consistentTD_facts hcons).1 hfree hnd⟩
+  ⟨_, rfl, hunTDSteps_keys un unIsId hc inst hid attrs (consistentTD_facts hcons).1 hfree hnd hreq⟩
 
 /-- **Which keys the output has** (corollary of `C09_td_keys`, one line per key): `k` is a key of the output iff
 it is the final key of a handled attribute whose entry is present in the instance, or it is a key of the
@@ -178,12 +183,13 @@ theorem C09_td_keys_present (un : UnFn) (unIsId : Option Ty → Bool) (hc : Hook
     (hcons : ConsistentTD hc attrs = true)
     (hid : ∀ t v, unIsId t = true → un t v = v)
     (hfree : ∀ a ∈ attrs, tdIncluded hc a = true → ∀ r, (ovOf hc a).rename = some r → dlookup inst (.str r) = none)
-    (hnd : nodupPy (keysOf inst) = true) :
+    (hnd : nodupPy (keysOf inst) = true)
+    (hreq : ∀ a ∈ attrs, tdIncluded hc a = true → a.required = true → (dlookup inst (.str a.name)).isSome = true) :
     ∃ out, hunTD un unIsId hc attrs inst = .dict out ∧ ∀ k : Obj,
       ((dlookup out k).isSome = true ↔
         (∃ a ∈ attrs, tdIncluded hc a = true ∧ k = .str (tdKey hc a) ∧ (dlookup inst (.str a.name)).isSome = true) ∨
         ((∀ a ∈ attrs, k ≠ .str a.name) ∧ (dlookup inst k).isSome = true)) := by
-  obtain ⟨out, ho, h1, h2, h3, -⟩ := C09_td_keys un unIsId hc attrs inst hcons hid hfree hnd
+  obtain ⟨out, ho, h1, h2, h3, -⟩ := C09_td_keys un unIsId hc attrs inst hcons hid hfree hnd hreq
   refine ⟨out, ho, fun k => ?_⟩
   by_cases hA : ∃ a ∈ attrs, tdIncluded hc a = true ∧ k = .str (tdKey hc a)
   · obtain ⟨a, ha, hi, rfl⟩ := hA
@@ -224,6 +230,20 @@ theorem C09_td_keys_present (un : UnFn) (unIsId : Option Ty → Bool) (hc : Hook
       · rintro (⟨b, hb, hib, hkb, -⟩ | ⟨-, hs⟩)
         · exact absurd ⟨b, hb, hib, hkb⟩ hA
         · exact hs
+
+/-- **`KeyError` on a missing required key.**  The generated unstructure hook reads a required key without the guard
+`if 'a' in instance` (only non-required keys get it).  For a consistent customisation: if a handled required key whose
+assignment line is emitted -- its handler is not the identity, or it is renamed -- is absent from the instance, the
+hook raises `KeyError` (the model's output carries `keyErrMark` under the key's final name; an unstructure hook has no
+`try`, so the exception is the outcome of the whole call).  The key statements above assume the required keys
+present (`hreq`); this is the complementary case. -/
+theorem C09_td_keyerror (un : UnFn) (unIsId : Option Ty → Bool) (hc : HookCfg) (attrs : List Attr)
+    (inst : List (Obj × Obj)) (hcons : ConsistentTD hc attrs = true)
+    (a : Attr) (ha : a ∈ attrs) (hi : tdIncluded hc a = true) (hreq : a.required = true)
+    (habs : dlookup inst (.str a.name) = none)
+    (hline : ((ovOf hc a).uh.isNone && unIsId a.ty && (ovOf hc a).rename.isNone) = false) :
+    ∃ out, hunTD un unIsId hc attrs inst = .dict out ∧ dlookup out (.str (tdKey hc a)) = some keyErrMark :=
+  ⟨_, rfl, hunTDSteps_keyerror un unIsId hc inst a hi hreq habs hline attrs inst (consistentTD_facts hcons).1 ha⟩
 
 /-- **TypedDict round trip, outcome with `forbid_extra_keys` on** (both templates).  The forbid check of the
 generated structure hook accepts exactly the final keys of the handled attributes (`allowed_fields`); the
@@ -320,7 +340,7 @@ theorem C09_converter_level (teq : Ty → Ty → Bool) (co : ConvOpts) (un : UnF
     (kind : GKind) (frozen : Bool) (attrs : List Attr) (fs : List (String × Obj)) (rt : Attr → Obj → Obj)
     (hcons : ConsistentCls frozen (convHc teq co kind attrs) attrs = true) (hlen : fs.length = attrs.length)
     (hrt : ∀ p ∈ attrs.zip fs, included (convHc teq co kind attrs) p.1 = true →
-      emitted (convHc teq co kind attrs) p.1 p.2.2 = true → (ovOf (convHc teq co kind attrs) p.1).sh = none →
+      GenHook.emitted (convHc teq co kind attrs) p.1 p.2.2 = true → (ovOf (convHc teq co kind attrs) p.1).sh = none →
       st p.1.ty (un p.1.ty p.2.2) = .ok (rt p.1 p.2.2)) :
     let c : GCls := { kind := kind, frozen := frozen, attrs := attrs, hc := convHc teq co kind attrs }
     (∃ kvs, hunCls un c.hc attrs fs = .dict kvs ∧ keysOf kvs = (expectedKeys c.hc attrs fs).map Obj.str) ∧
@@ -432,7 +452,7 @@ example : ∃ out, hunTD C09Ex.idUn (fun _ => true) (C09Ex.exTD3 true).hc (C09Ex
         (dlookup C09Ex.inst3x (.str a.name)).isSome = true) ∨
       ((∀ a ∈ (C09Ex.exTD3 true).attrs, k ≠ .str a.name) ∧ (dlookup C09Ex.inst3x k).isSome = true)) :=
   C09_td_keys_present C09Ex.idUn (fun _ => true) (C09Ex.exTD3 true).hc (C09Ex.exTD3 true).attrs C09Ex.inst3x
-    (by decide) (fun _ _ _ => rfl) (C09Ex.exTD3_hfree true _ (by decide)) (by decide)
+    (by decide) (fun _ _ _ => rfl) (C09Ex.exTD3_hfree true _ (by decide)) (by decide) (C09Ex.exTD3_hreq true _ (by decide))
 
 /-- non-vacuity of `C09_td_roundtrip` with the option on, both templates: all hypotheses hold for `inst3`
 (renamed, omitted and non-required keys present) and the round trip yields `{'b': 2, 'a': 1}` -/
@@ -467,6 +487,14 @@ example (detailed : Bool) : ¬ ∃ y, hstTDWith true C09Ex.idSt 0 (C09Ex.exTD3 d
     (C09Ex.exTD3_hfree detailed _ (by decide)) (fun _ _ _ _ _ _ => rfl) (by decide), ← tdUndeclared_eq_nil_iff]
   cases detailed <;> decide
 
+/-- and when the line is not emitted (identity handler, no rename) a missing required key goes unnoticed: the copy is
+returned as it is -/
+example : hunTD C09Ex.idUn (fun _ => true) (C09Ex.exTD []).hc (C09Ex.exTD []).attrs [(.str "b", .int 2)] = .dict [(.str "b", .int 2)] := by
+  decide
+/-- non-vacuity of `C09_td_keyerror`: `a` renamed to `k`, absent -/
+example : hunTD C09Ex.idUn (fun _ => true) (C09Ex.exTD [("a", { Ovr.neutral with rename := some "k" })]).hc (C09Ex.exTD []).attrs
+    [(.str "b", .int 2)] = .dict [(.str "b", .int 2), (.str "k", keyErrMark)] := by decide
+
 /-- **F24 (recorded finding).**  TypedDict `{a, b}` with `a → 'b'`, `b → 'c'` is outside `ConsistentTD`, and the
 copy-then-patch hook loses a key: `{'a': 1, 'b': 2}` unstructures to `{'c': 2}` instead of `{'b': 1, 'c': 2}`. -/
 theorem C09_F24_td_rename_witness :
@@ -488,5 +516,84 @@ theorem C09_F25_frozen_init_false_witness :
       = .error (.cve [(some "d", .leaf)]) := ⟨by decide, by rfl⟩
 
 end Examples
+
+/-! ## unbounded nesting: the composition `unTy` / `stTy`
+
+`unTy g n` / `stTy g n` tie the class hooks of the table `g` together through the field types (`n` = recursion
+budget).  `gconf g d t x`: `x` is a value of `t`, nested at most `d` type constructors deep, inside the fragment of the
+composition (classes / TypedDicts / NamedTuples with dict hooks, through optionals, NewType / Annotated / Final /
+alias wrappers and non-set collections; class-free positions: any type of the data path, with C01's hypotheses).  The
+statements hold for **every** `d` and every budget `n ≥ d` -- nesting of any depth, fuel eliminated. -/
+
+/-- **Round trip at any nesting depth.**  For every class table in which every class has a consistent
+customisation (enum tables as Python builds them), every type, every depth `d`, every value conforming within depth
+`d`, and every budget `n ≥ d`: `structure(unstructure(x, T), T)` succeeds and the result agrees with `x` on every
+handled attribute at every class position (`AgreesAt`: same class; a handled attribute holds the original value under
+a custom hook pair, a value that agrees at the attribute's type otherwise, or the default -- `==` to the original --
+when `omit_if_default` dropped it; TypedDict keys present iff they were; class-free positions equal). -/
+theorem C09_roundtrip_nested (g : GWorld) (hcons : g.consistent = true) (hwe : g.core.WFE)
+    (d : Nat) (t : Option Ty) (x : Obj) (hx : gconf g d t x = true) (n : Nat) (hn : d ≤ n) :
+    ∃ y, stTy g n t (unTy g n t x) = .ok y ∧ AgreesAt g d t x y :=
+  roundtrip_nested g hcons hwe d t x hx n hn
+
+/-- **Emitted keys at any nesting depth**: under the same hypotheses the output of the composition has, at every
+class position, exactly the keys `expectedKeys` in order, the entry of every emitted attribute satisfying the same
+statement at the attribute's type (TypedDict positions: the three clauses of `C09_td_keys`). -/
+theorem C09_keys_nested (g : GWorld) (hcons : g.consistent = true)
+    (d : Nat) (t : Option Ty) (x : Obj) (hx : gconf g d t x = true) (n : Nat) (hn : d ≤ n) :
+    KeysAt g d t x (unTy g n t x) :=
+  keys_nested g hcons d t x hx n hn
+
+/-- **Fuel sufficiency.**  Once the recursion budget suffices for a payload -- structuring succeeds -- the result is
+the same at every larger budget (every payload, every class table, consistent or not). -/
+theorem C09_fuel_sufficient (g : GWorld) (n m : Nat) (hnm : n ≤ m) (t : Option Ty) (p y : Obj)
+    (h : stTy g n t p = .ok y) : stTy g m t p = .ok y :=
+  stTy_mono g hnm h
+
+/-- hence the round trip of a conforming value has one result for all sufficient budgets -/
+theorem C09_roundtrip_nested_stable (g : GWorld) (hcons : g.consistent = true) (hwe : g.core.WFE)
+    (d : Nat) (t : Option Ty) (x : Obj) (hx : gconf g d t x = true) (n m : Nat) (hn : d ≤ n) (hnm : n ≤ m) :
+    ∃ y, stTy g n t (unTy g n t x) = .ok y ∧ stTy g m t (unTy g n t x) = .ok y ∧ AgreesAt g d t x y := by
+  obtain ⟨y, h1, h2⟩ := roundtrip_nested g hcons hwe d t x hx n hn
+  exact ⟨y, h1, stTy_mono g hnm h1, h2⟩
+
+section NestedExample
+/-- three levels: dataclass 2 → Optional[TypedDict 1] → list[attrs class 0]; renames, a custom hook pair,
+`omit_if_default`, a forbidding leaf class -/
+def C09Ex.nestWorld : GWorld :=
+  { detailed := true, enums := [],
+    classes :=
+      [ { kind := .attrs, frozen := false,
+          hc := { ovs := [("a", { Ovr.neutral with rename := some "it's" }), ("b", { Ovr.neutral with sh := some 2, uh := some 2 })],
+                  useAlias := false, inclInitFalse := false, oid := false, forbid := true, detailed := false },
+          attrs := [C09Ex.exAttr "a" "a" .int .none true, C09Ex.exAttr "b" "b" .str .none true] },
+        { kind := .typeddict, frozen := false,
+          hc := { ovs := [("x", { Ovr.neutral with rename := some "xs" })], useAlias := false, inclInitFalse := false,
+                  oid := false, forbid := false, detailed := true },
+          attrs := [C09Ex.exAttr "x" "x" (.coll .list (.cls 0)) .none true,
+                    { C09Ex.exAttr "y" "y" .int .none true with required := false }] },
+        { kind := .dataclass, frozen := false,
+          hc := { ovs := [], useAlias := false, inclInitFalse := false, oid := true, forbid := false, detailed := true },
+          attrs := [C09Ex.exAttr "inner" "inner" (.opt (.td 1)) .none true, C09Ex.exAttr "n" "n" .int (.const (.int 0)) true] } ] }
+
+def C09Ex.nestValue : Obj :=
+  .inst 2 [("inner", .dict [(.str "x", .coll .list [.inst 0 [("a", .int 1), ("b", .str "u")], .inst 0 [("a", .int 2), ("b", .str "v")]])]),
+           ("n", .int 0)]
+
+theorem C09Ex.nestWorld_WFE : C09Ex.nestWorld.core.WFE :=
+  ⟨fun e v hv => by simp [World.members, GWorld.core, C09Ex.nestWorld] at hv,
+   fun e => by simp [World.members, GWorld.core, C09Ex.nestWorld, nodupPy]⟩
+
+example : C09Ex.nestWorld.consistent = true := by decide
+
+theorem C09Ex.nestValue_conf : gconf C09Ex.nestWorld 6 (some (.cls 2)) C09Ex.nestValue = true := by
+  decide
+
+/-- non-vacuity of `C09_roundtrip_nested` / `C09_keys_nested`: the hypotheses hold for the three-level value -/
+example : ∃ y, stTy C09Ex.nestWorld 9 (some (.cls 2)) (unTy C09Ex.nestWorld 9 (some (.cls 2)) C09Ex.nestValue) = .ok y ∧
+    AgreesAt C09Ex.nestWorld 6 (some (.cls 2)) C09Ex.nestValue y :=
+  C09_roundtrip_nested _ (by decide) C09Ex.nestWorld_WFE 6 _ _ C09Ex.nestValue_conf 9 (by omega)
+
+end NestedExample
 
 end CattrsModel
